@@ -153,7 +153,7 @@ Theorem C16_post_name_before_fix : fixed_F2 = false ->
 Proof. exact post_name_before_fix. Qed.
 Print Assumptions C16_post_name_before_fix.
 
-(* `_before_fix`: the classes F1 / F2 / F3 / F6 as the code was before the repairs D55 / D56 (and the proposed repair of F1 + F6);
+(* `_before_fix`: the classes F1 / F2 / F3 / F6 as the code was before the repairs D55 / D56 / D60;
    each carries the hypothesis that the corresponding switch of Population.v is off and is vacuous once it is on.  The
    witnesses stay in corpus/C16 as regression cases. *)
 Theorem C16_dup_sources_before_fix : fixed_F1 = false ->
